@@ -33,6 +33,8 @@ def _run(args):
 
 
 def run(ctx):
+    if ctx.replay:
+        return _replay(ctx)
     ctx.rule = ("TLC explores IpSubs (exhaustive tiny instance + simulation); executions of the real code are seeded random "
                 "histories; distinct by recorded event sequence; non-trivial if at least one registration or event occurred")
     ctx.assume("a conformant accessory only notifies characteristics registered on that session and answers PUT with 204",
@@ -59,3 +61,31 @@ def run(ctx):
         ctx.violation(what, {"kind": "trace", "record": j.get("record"), "first_unexplained": j.get("event"),
                              "position": j.get("maxl"), "last_matched_state": j.get("last_state")})
     ctx.sample({"recorded_trace_prefix": recs[0]["events"][:30]})
+
+
+def _replay(ctx):
+    """--replay <file>: re-execute the recorded execution (same seed => same stimuli) and validate the fresh trace;
+    if it cannot be regenerated from its id, re-validate the recorded trace."""
+    import re
+    rep = json.load(open(ctx.replay))
+    seed = rep.get("seed", ctx.seed)
+    obj = rep.get("replay") or {}
+    if obj.get("kind") == "tlc":
+        ctx.tlc(obj["module"][len("spec/"):-4], obj["cfg"], coverage=False, require_cover=False, label="replay: re-run the TLC configuration")
+        return
+    rec = obj.get("record") or {}
+    rid = str(rec.get("id", ""))
+    m = re.match(r"sub(\d+)$", rid)
+    fresh = None
+    if m:
+        i = int(m.group(1))
+        fresh = _run((seed * 1000003 + i, rid, [20, 35, 50][i % 3]))
+    use = fresh or rec
+    ctx.notes["replayed"] = "re-executed" if fresh else "recorded trace re-validated"
+    ctx.case(json.dumps(use.get("events", [])))
+    ctx.sample({"replayed_trace_prefix": use.get("events", [])[:25]})
+    rej = tracecheck.validate(ctx, "ip/IpSubs_Trace", "IpSubs_Trace.cfg", [use], label="replay")
+    for j in rej:
+        ctx.violation(f"replayed execution {rid} is rejected: "
+                      + (f"invariant {j['invariant']} violated" if j.get("invariant") else f"event #{j['maxl']} {j['event']} cannot be explained"),
+                      {"kind": "trace", "record": use, "position": j.get("maxl"), "last_matched_state": j.get("last_state")})
